@@ -119,6 +119,11 @@ func (x *Exec) builtin(fr *frame, b *ssa.Builtin, args []Value, cc *ssa.CallComm
 		return Iface{}
 	case "print", "println":
 		return nil
+	case "ssa:wrapnilchk":
+		if p, ok := args[0].(Ptr); ok && p.IsNil() {
+			x.goPanic("value method called using nil pointer", nil)
+		}
+		return args[0]
 	case "delete":
 		m := args[0].(*MapV)
 		i := x.mapFind(m, args[1])
